@@ -2,6 +2,7 @@ import YarlProofs.C14
 import YarlProofs.C15Entry
 import YarlProofs.Lemmas.FixLemmas
 import YarlProofs.C03Reach
+import YarlProofs.C15More
 /-!
 # C14 — join() is RFC 3986 section 5.2 reference resolution   (audit layer)
 
@@ -32,11 +33,13 @@ theorem C14_headline_join_rfc (e : Env) (base ref : Url)
     (hrel : Gen.usesRelative.contains base.scheme = true)
     (hsch : ref.scheme = [] ∨ ref.scheme = base.scheme)
     -- the base path is empty or rooted.  A ROOTLESS base path (possible without authority: `URL("a/b")`)
-    -- meets §5.2.4 differently: `C14_headline_join_rfc_fails_for_rootless_base`; next to an authority
+    -- meets §5.2.4 differently (F-C14-rootless-base): `C14_headline_join_rfc_fails_for_rootless_base`, what is computed
+    -- instead: `C14_headline_join_rootless_characterised`; next to an authority
     -- (encoded=True only) it is mangled: `C14_rootless_authority_base_counterexample`
     (hbase : base.path = [] ∨ base.path.head? = some 47)
     -- a base with NEITHER authority NOR path (`URL("")`, `URL("http:")`): the reference path must be
-    -- rooted or free of '.': `C14_empty_base_dotdot_counterexample`
+    -- rooted or free of '.' (same finding F-C14-rootless-base): `C14_empty_base_dotdot_counterexample`,
+    -- restated in `C14_headline_join_rfc_fails_for_other_guards`
     (hempty : base.netloc = [] → base.path = [] → ref.path.head? = some 47 ∨ 46 ∉ ref.path)
     -- a reference with its own authority is taken AS IS: its path must already be free of dot segments
     -- (true of every library-made URL, C15; false for encoded=True: `C14_ref_authority_unnormalised_counterexample`)
@@ -81,12 +84,12 @@ theorem C14_headline_join_rfc_rootless_base (e : Env) (base ref : Url)
     (hsch : ref.scheme = [] ∨ ref.scheme = base.scheme)
     (hnet : base.netloc = [])
     (href : ref.netloc ≠ [] → Rfc.removeDotSegments ref.path = ref.path)
-    -- excludes dot segments meeting a rootless merged path: the finding below
+    -- excludes dot segments meeting a rootless merged path: the finding below (F-C14-rootless-base)
     (hnodot : 46 ∉ base.path ∧ 46 ∉ ref.path) :
     p5 (join e base ref) = Rfc.resolve (p5 base) (p5 ref) :=
   C14_join_rfc_rootless_nodots e base ref hrel hsch hnet href hnodot
 
-/-- KNOWN FINDING (rootless-base join): `URL("a/b").join(URL(".."))` has the EMPTY path, RFC 3986 gives "/";
+/-- KNOWN FINDING F-C14-rootless-base (rootless-base join): `URL("a/b").join(URL(".."))` has the EMPTY path, RFC 3986 gives "/";
     `URL("a/b").join(URL("../../c"))` is `c`, RFC `/c` -/
 theorem C14_headline_join_rfc_fails_for_rootless_base (e : Env) :
     (let base := fromParts [] [] "a/b".toStr [] []
@@ -98,8 +101,91 @@ theorem C14_headline_join_rfc_fails_for_rootless_base (e : Env) :
      (join e base ref).path = "c".toStr ∧ (Rfc.resolve (p5 base) (p5 ref)).path = "/c".toStr) :=
   ⟨C14_rootless_base_counterexample e, C14_rootless_base_counterexample2 e⟩
 
-/-- the other two guards are needed as well: empty base (`http:` + `a/..`), un-normalised reference
-    authority path (`//g/a/../b`, encoded=True only) -/
+/-- references that are NOT merged with the base path (NEW; the remaining cases next to C14_headline_join_rfc_rootless_base and
+    C14_headline_join_rootless_characterised): a reference with its own authority, with an EMPTY path, or with a ROOTED path.
+    The base path — rootless or not, with dot segments or not — plays no role in §5.2.2 then, and join is exactly RFC 3986. -/
+theorem C14_headline_join_rfc_ref_not_merged (e : Env) (base ref : Url)
+    (hrel : Gen.usesRelative.contains base.scheme = true)
+    (hsch : ref.scheme = [] ∨ ref.scheme = base.scheme)
+    -- excludes only a rootless non-empty base path NEXT TO AN AUTHORITY (encoded=True only; mangled by `raw_parts`:
+    -- `C14_rootless_authority_base_counterexample`)
+    (hb : base.netloc = [] ∨ base.path = [] ∨ base.path.head? = some 47)
+    (hcase : ref.netloc ≠ [] ∨ ref.path = [] ∨ ref.path.head? = some 47)   -- network-path / empty-path / absolute-path reference
+    (href : ref.netloc ≠ [] → Rfc.removeDotSegments ref.path = ref.path) :   -- as in C14_headline_join_rfc
+    p5 (join e base ref) = Rfc.resolve (p5 base) (p5 ref) :=
+  join_rfc_of_path e base ref hrel hsch href (fun hn hp => by
+    rcases hcase with h | h | h
+    · exact absurd hn h
+    · exact absurd h hp
+    · exact joinPath_rfc base ref hb hp (Or.inl (target_rooted base ref (Or.inr (Or.inr h)))))
+
+/-- RFC 3986 §5.2.3 for a base WITHOUT authority whose path is empty or rootless and a rootless non-empty reference path:
+    the merged path is non-empty and ROOTLESS (so §5.2.4 is applied to a rootless path — the situation of the finding) -/
+theorem C14_headline_merge_rootless (base : Url) (rp : Str)
+    (hnet : base.netloc = []) (hbase : base.path.head? ≠ some 47) (hp : rp ≠ []) (hr : rp.head? ≠ some 47) :
+    Rfc.merge (p5 base) rp ≠ [] ∧ (Rfc.merge (p5 base) rp).head? ≠ some 47 := by
+  have hm : Rfc.merge (p5 base) rp = (base.path.reverse.dropWhile (· ≠ 47)).reverse ++ rp := by
+    simp [Rfc.merge, p5, hnet]
+  rw [hm]
+  refine ⟨by simp [hp], ?_⟩
+  cases hq : (base.path.reverse.dropWhile (· ≠ 47)).reverse with
+  | nil => simpa using hr
+  | cons c t =>
+    have hpre : (base.path.reverse.dropWhile (· ≠ 47)).reverse <+: base.path := by
+      have := (List.dropWhile_suffix (fun x => decide (x ≠ 47)) (l := base.path.reverse))
+      simpa using List.reverse_prefix.mpr this
+    rw [hq] at hpre
+    obtain ⟨s, hs⟩ := hpre
+    rw [← hs] at hbase
+    simpa using hbase
+
+/-- WHAT join computes in the corner of F-C14-rootless-base (NEW; closes the "not characterised by any theorem" part of
+    GAPS 1 and 2).  Base without authority, base path empty or rootless, relative-path reference (no authority, rootless
+    non-empty path): every component except the path is the RFC's, and the path is §5.2.4 applied to the merged path AS IF
+    IT WERE ROOTED, with that root slash dropped again: `remove_dot_segments("/" + merge(base, ref))[1:]` — whereas the RFC
+    says `remove_dot_segments(merge(base, ref))` on the rootless merged path (second conjunct).  E.g. `a/b` + `..`:
+    merged `a/..`; code: `remove_dot_segments("/a/..")[1:] = ""`; RFC: `remove_dot_segments("a/..") = "/"`.
+    Uses C15_rds_rooted_relative (C15More.lean): `remove_dot_segments("/" + p) = "/" + normalize_path(p)` for rootless `p`. -/
+theorem C14_headline_join_rootless_characterised (e : Env) (base ref : Url)
+    (hrel : Gen.usesRelative.contains base.scheme = true)
+    (hsch : ref.scheme = [] ∨ ref.scheme = base.scheme)
+    (hnet : base.netloc = [])                 -- base without authority …
+    (hbase : base.path.head? ≠ some 47)       -- … whose path is empty or rootless: the cases `hbase` / `hempty` above exclude
+    (hrn : ref.netloc = [])                   -- relative-path reference: no authority,
+    (hp : ref.path ≠ []) (hr : ref.path.head? ≠ some 47) :   -- a non-empty rootless path (else C14_headline_join_rfc applies)
+    p5 (join e base ref) =
+      { Rfc.resolve (p5 base) (p5 ref) with
+        path := (Rfc.removeDotSegments (47 :: Rfc.merge (p5 base) ref.path)).drop 1 } ∧
+    (Rfc.resolve (p5 base) (p5 ref)).path = Rfc.removeDotSegments (Rfc.merge (p5 base) ref.path) := by
+  have hrs : (if (p5 ref).scheme = (p5 base).scheme then [] else (p5 ref).scheme) = ([] : Str) := by
+    rcases hsch with h | h <;> simp [h, p5]
+  obtain ⟨hT0, hT47⟩ := C14_headline_merge_rootless base ref.path hnet hbase hp hr
+  have hT : target base ref = Rfc.merge (p5 base) ref.path := by simp [target, hr]
+  have hj : joinPath base ref = (Rfc.removeDotSegments (47 :: Rfc.merge (p5 base) ref.path)).drop 1 := by
+    rw [joinPath_eq base ref (Or.inl hnet) hp, hT]
+    split
+    · rw [C15_rds_rooted_relative _ hT0 hT47]; rfl
+    · rename_i h
+      rw [rds_no_dot _ (by simpa [mem] using h)]; rfl
+  have hp' : ref.path.isEmpty = false := by simpa using hp
+  rw [join_rel e base ref hrel hsch]
+  unfold Rfc.resolve
+  simp only [hrs, List.isEmpty_nil, Bool.not_true, Bool.false_eq_true, if_false]
+  simp only [p5, hrn, List.isEmpty_nil, Bool.not_true, Bool.false_eq_true, if_false, hp', hr, fromParts, hj]
+  simp
+
+/-- the characterisation at the two witnesses of the finding (non-vacuity): `a/b` + `..` and `http:` + `a/..` -/
+example (e : Env) :
+    (join e (fromParts [] [] "a/b".toStr [] []) (fromParts [] [] "..".toStr [] [])).path
+      = (Rfc.removeDotSegments (47 :: Rfc.merge (p5 (fromParts [] [] "a/b".toStr [] [])) "..".toStr)).drop 1 ∧
+    (Rfc.removeDotSegments (47 :: Rfc.merge (p5 (fromParts [] [] "a/b".toStr [] [])) "..".toStr)).drop 1 = [] := by
+  refine ⟨?_, by decide⟩
+  have := (C14_headline_join_rootless_characterised e (fromParts [] [] "a/b".toStr [] []) (fromParts [] [] "..".toStr [] [])
+    (by decide) (Or.inl rfl) rfl (by decide) rfl (by decide) (by decide)).1
+  exact congrArg Rfc.Parts5.path this
+
+/-- the other two guards are needed as well: empty base (`http:` + `a/..`; class "empty base without authority" of the same
+    KNOWN FINDING F-C14-rootless-base), un-normalised reference authority path (`//g/a/../b`, encoded=True only) -/
 theorem C14_headline_join_rfc_fails_for_other_guards (e : Env) :
     (let base := fromParts "http".toStr [] [] [] []
      let ref := fromParts [] [] "a/..".toStr [] []
@@ -144,12 +230,18 @@ example : p5 (join ⟨.py, Oracles.empty⟩ rfcBase (rel "../g" "y" "s")) =
 
 /-
 GAPS:
- 1. Rootless base path (no authority, e.g. `URL("a/b")`) TOGETHER WITH a '.' in either
-    path: join is NOT RFC 3986 (known finding, C14_headline_join_rfc_fails_for_rootless_base); what the
-    code computes instead (`normalize_path` = the stack algorithm, applied to the rootless merged path) is
-    `joinPath_eq` in C14.lean; its relation to §5.2.4 on rootless input is not characterised by any theorem.
- 2. Base with neither authority nor path and a rootless reference containing '.': same deviation
-    (C14_empty_base_dotdot_counterexample), not characterised.
+ 1. PARTLY CLOSED by C15_rds_rooted_relative (C15More.lean) + joinPath_eq (C14.lean), see C14_headline_join_rootless_characterised
+    (proved in this file).  Rootless base path (no authority, e.g. `URL("a/b")`) TOGETHER WITH a '.' in either
+    path: join is NOT RFC 3986 (known finding F-C14-rootless-base, C14_headline_join_rfc_fails_for_rootless_base).  What the
+    code computes instead IS now characterised against §5.2.4, for a relative-path reference with a non-empty rootless path:
+    `remove_dot_segments("/" + merged)[1:]` instead of `remove_dot_segments(merged)`, all other components as in the RFC.
+    A reference that is not merged (own authority, EMPTY path or ROOTED path) against such a base is RFC-exact:
+    C14_headline_join_rfc_ref_not_merged (new, from join_rfc_of_path / joinPath_rfc / target_rooted in C14.lean).
+    STILL OPEN: no closed-form condition on base/ref for when the two results coincide beyond "no '.' in either path"
+    (C14_headline_join_rfc_rootless_base).
+ 2. PARTLY CLOSED, same theorem (its hypothesis `hbase : base.path.head? ≠ some 47` includes the EMPTY base path).  Base with neither
+    authority nor path and a rootless reference containing '.': same deviation (C14_empty_base_dotdot_counterexample,
+    restated in C14_headline_join_rfc_fails_for_other_guards), now characterised as in item 1 (here merged = the reference path).
  3. For library-made URLs (`ReachC`) with an AUTHORITY in the base all guards are discharged
     (C14_headline_join_rfc_reachable).  `ReachC` excludes encoded=True anywhere in the history; for such
     URLs only the guarded theorem applies.
